@@ -12,6 +12,10 @@ returns it unchanged with idx reset from N to 0, after which the next call short
 from C09.V and C09.D, recorded as an assumption, not a checked theorem).
 """
 import lin
+import panlin
+import pan
+import handspec
+import glue
 import summ
 import sym
 import tbl
@@ -31,134 +35,72 @@ MANIFEST = {
 }
 
 
+def acc_hyps(p, N_terms):
+    """hypotheses for the linear discharge inside the accumulator: Inv idx <= N <= isize::MAX, and the contract of Iterator::position
+    (the index it returns is smaller than the length of the slice it searched)"""
+    hyps = []
+    for t in sym.subterms(tuple(norm(c) for c, _, _ in p.pc) + tuple(norm(e.get(k)) for e in p.events if e["k"] == "assert" for k in ("a", "b") if e.get(k) is not None)):
+        if t and t[0] == "init" and t[1][0] == "F" and t[1][2] == "idx":
+            for N in N_terms:
+                hyps.append(lin.ge(N, t))
+    for N in N_terms:
+        hyps.append(lin.ge(C((1 << 63) - 1, "usize"), N))
+    for e in tbl.residual_calls(p):
+        if (e["key"] or "").endswith("Iterator::position"):
+            it = e["snap"][0] if e.get("snap") else None
+            if it is not None and it[0] == "call" and it[3]:
+                hyps.append(lin.gt(("len", norm(it[3][0])), ("someval", norm(e["result"]))))
+    return hyps
+
+
 def run(run_, ctx):
     run_groups(run_, ctx, [("S", "acc", None, "accumulator")])
     run_.floor("S", 4)
     F = ctx.facts("A")
-    A = accmod.Acc(F)
-    site = A.feed_ref.where()
-    over = 0
-    for i, p in enumerate(A.paths):
-        if p.status != "return":
-            run_.bad("P", "feed_ref path %d" % i, "a path ends in %s (panic reachable?)" % p.status, site)
-            continue
-        v = A.variant(p)
-        zf = A.zero_found(p)
-        tag = "%s/%s" % (v, {True: "zero", False: "nozero", None: "empty"}[zf])
-        probs = []
-        fin = A.final_idx(p)
-        # D / I
-        if zf and fin != C(0, "usize"):
-            probs.append("D: a zero byte was consumed but idx = %s afterwards (not back in the initial state)" % sym.show(fin))
-        writes = [e for e in p.events if e["k"] == "write" and e["loc"] == A.idx_loc]
-        for w in writes:
-            if w["val"] != C(0, "usize"):
-                probs.append("I: idx is set to %s in feed_ref (only 0 is allowed here; growth goes through the guarded append)" % sym.show(w["val"]))
-        if v == "OverFull":
-            over += 1
-            if fin != C(0, "usize"):
-                probs.append("V: overflow reported but idx = %s afterwards" % sym.show(fin))
-            rem = norm(p.ret[5][0])
-            if zf:
-                sp = A.calls(p, "<impl [T]>::split_at")
-                if not sp or rem != norm(("getf", sp[0]["result"], "1")):
-                    probs.append("V: overflow with terminator must drop through the terminator and return the bytes after it")
-                take = ("getf", sp[0]["result"], "0") if sp else None
-                # really does not fit
-                if take and not A.prove(p, lin.gt(("bin", "Add", A.idx0, ("len", norm(take)), "usize"), A.N)):
-                    probs.append("V: OverFull although the segment would fit")
-            else:
-                ix = A.calls(p, "Index::index")
-                okr = False
-                if len(ix) == 1 and norm(ix[0]["args"][0]) == A.input and norm(ix[0]["result"]) == rem:
-                    r = ix[0]["args"][1]
-                    if r[0] == "agg" and r[2].endswith("::RangeFrom"):
-                        start = norm(r[5][0])
-                        okr = start == norm(("bin", "Sub", A.N, A.idx0, "usize"))
-                        if not okr:
-                            probs.append("V: overflow without terminator returns &input[%s..], expected &input[N - idx..] with idx read before the reset" % sym.show(start))
-                            okr = True
-                if not okr:
-                    probs.append("V: overflow without terminator does not return the tail of the input")
-                if not A.prove(p, lin.gt(("bin", "Add", A.idx0, A.len_in, "usize"), A.N)):
-                    probs.append("V: OverFull although the chunk would fit")
-        else:
-            # not OverFull: the data fitted (or was empty)
-            for e in A.calls(p, "::extend_unchecked"):
-                x = norm(e["args"][1])
-                if not A.prove(p, lin.ge(A.N, ("bin", "Add", A.idx0, ("len", x), "usize"))):
-                    probs.append("I: append of %s not guarded by idx + len <= N (idx could exceed N)" % sym.show(x))
-        # P: panic sites on this path
-        for e in p.events:
-            if e["k"] == "assert" and e["static"] is not True:
-                ok_ = discharge(A, p, e)
-                if not ok_:
-                    probs.append("P: %s check %s not discharged" % (e["kind"], sym.show(norm(e["cond"]))))
-            elif e["k"] == "call" and not e.get("inlined"):
-                k = e["key"]
-                if k.endswith("<impl [T]>::split_at"):
-                    if not A.prove(p, lin.ge(A.len_in, e["args"][1])):
-                        probs.append("P: split_at(%s) may exceed the input length" % sym.show(norm(e["args"][1])))
-                elif k.endswith("Index::index") and norm(e["args"][0]) == A.input:
-                    r = e["args"][1]
-                    if not (r[0] == "agg" and r[2].endswith("::RangeFrom") and A.prove(p, lin.ge(A.len_in, r[5][0]))):
-                        probs.append("P: &input[%s..] may start past the end of the input" % sym.show(norm(r[5][0]) if r[0] == "agg" else r))
-                elif k.startswith("core::panicking") or k.endswith("::unwrap") or k.endswith("::expect"):
-                    probs.append("P: call to %s" % k)
-        run_.check(not probs, "PATH", "feed_ref %s" % tag, probs[0] if probs else "reset/remainder/guards/panic sites hold on this path", site, found=probs)
+    pc = F.crate("postcard")
+    ren = glue.renames(F, pc, glue.load2("A"))
+    # PATH / V: the hand-written case analysis (rules/handspec.py): idx is 0 after every zero byte and after every overflow; OverFull is
+    # produced exactly when the data does not fit and carries the bytes after the terminator, or input[N - idx..] with idx read before the reset
+    handspec.check(run_, "PATH", F, pc, ["<accumulator::CobsAccumulator<N> as ->::feed_ref"],
+                   "reset after zero/overflow; OverFull only when it does not fit; remainder offsets", renames=ren, per_outcome=True)
     run_.floor("PATH", 6)
-    run_.check(over == 2, "V", "OverFull producers", "expected exactly two overflow paths (with and without terminator), found %d" % over, site)
-    # extend_unchecked's own sites under its precondition idx + len <= N (established at both call sites, see PATH)
-    e = A.extend
-    eng = sym.Engine(F, max_visits=2)
-    probs = []
-    for p in eng.run(e):
-        if p.status != "return":
-            probs.append("path ends in %s" % p.status)
-        s = ("P", ("param", 1, e.locals[1]["ty"]))
-        idx0 = ("init", ("F", s, "idx"))
-        x = ("param", 2, e.locals[2]["ty"])
-        for ev in p.events:
-            if ev["k"] == "assert" and ev["static"] is not True:
-                if not (ev["kind"] == "Overflow" and ev.get("op") == "Add"):
-                    probs.append("unexpected %s check" % ev["kind"])
-            if ev["k"] == "call" and ev["key"].endswith("copy_from_slice"):
-                im = [c for c in tbl.residual_calls(p) if c["key"].endswith("IndexMut::index_mut")]
-                okl = False
-                if len(im) == 1 and norm(ev["args"][0]) == norm(im[0]["result"]) and norm(ev["args"][1]) == x:
-                    r = im[0]["args"][1]
-                    if r[0] == "agg" and r[2].endswith("::Range"):
-                        try:
-                            d = lin.ge(("bin", "Sub", r[5][1], r[5][0], "usize"), ("len", x))
-                            okl = not d.co and d.c == 0 and norm(r[5][0]) == idx0
-                        except Exception:
-                            okl = False
-                if not okl:
-                    probs.append("copy_from_slice lengths are not provably equal (destination must be buf[idx..idx+len])")
-    run_.check(not probs, "P", "extend_unchecked sites", probs[0] if probs else "range = idx..idx+len (<= N by the callers' guard); copy lengths equal; idx+len cannot overflow", e.where(), found=probs)
-    # new
-    ls = summ.lines(summ.summarize(F, A.new))
-    run_.check(len(ls) == 1 and "idx: 0" in ls[0] and "=> CobsAccumulator{" in ls[0], "I", "new establishes Inv", "new() must start with idx = 0", A.new.where(), found=ls)
+    n_over = sum(1 for o in handspec.ACC_FEED["outcomes"] if "OverFull" in o["text"])
+    run_.check(n_over == 2, "V", "OverFull producers", "the specification has exactly two overflow cases (with and without terminator)")
+    # I: the constructor establishes the invariant
+    handspec.check(run_, "I", F, pc, ["<accumulator::CobsAccumulator<N> as ->::new"], "new() starts empty: idx = 0, buf zeroed", renames=ren)
+    # P: every panic site of feed_ref (private helpers inlined) is discharged by linear arithmetic from the guards on its path, the
+    # invariant and the std contracts listed in the trusted base
+    fr = [f for f in pc.fns if f.name == "feed_ref" and (f.impl_self or "").startswith("accumulator::CobsAccumulator<")]
+    if len(fr) != 1:
+        run_.bad("P", "feed_ref", "not found")
+    else:
+        f = fr[0]
+        eng = sym.Engine(F, inline=handspec.acc_inline, max_visits=2, max_depth=10, models=sym.SLICE_MODELS)
+        sites, paths, ub = pan.collect(F, f, engine=eng)
+        N_terms = set()
+        for p in paths:
+            for t in sym.subterms(tuple(c for c, _, _ in p.pc)):
+                if t and t[0] == "tyconst":
+                    N_terms.add(t)
+            if p.status not in ("return",):
+                run_.bad("P", "feed_ref path", "a path ends in %s (panic reachable?)" % p.status, f.where())
+        groups = {}
+        for st_ in sites:
+            groups.setdefault(st_.key(), []).append(st_)
+        for key, ss in sorted(groups.items()):
+            bad = [x for x in ss if not panlin.discharged(x.path, x.ev, acc_hyps(x.path, N_terms))]
+            if bad:
+                run_.bad("P", key, "panic site not discharged on %d of %d path(s): %s %s" % (len(bad), len(ss), bad[0].kind, bad[0].text), f.where())
+            else:
+                run_.ok("P", key, "linear: guards + idx <= N <= isize::MAX + position() < len", f.where(), method="LIN")
+    run_.floor("P", 3)
     run_.assumptions += [
         "ranking argument for the documented feed loop (by hand): a non-Consumed result either returns a strictly shorter window (N - idx0 >= 1 bytes or n + 1 >= 1 bytes dropped) "
         "or, when idx0 == N, the same window with idx reset to 0, after which the next call drops N >= 1 bytes; uses exactly C09.V and C09.D",
-        "callers of extend_unchecked are feed_ref only (who-may-write, C08.O)"]
+        "the accumulator's fields are private and written only inside feed_ref's specified behaviour (C08.O)"]
     run_.explanation = (
-        "All paths of the loop-free feed_ref are enumerated. For each: idx is 0 after any zero byte and after any overflow; OverFull carries the bytes after the "
-        "terminator, or &input[N-idx..] with idx read before the reset, and is produced only when idx+len > N is implied by the guards; every MIR assertion "
-        "(add/sub overflow) and every split_at / index site is discharged by Fourier-Motzkin from the guards, the invariant idx <= N and std contracts; "
-        "extend_unchecked's range and copy lengths are checked under the precondition its two call sites establish.")
+        "feed_ref (private helpers inlined) is summarised from MIR and compared, as boolean functions under idx <= N, with the hand-written case analysis: idx is 0 "
+        "after any zero byte and after any overflow; OverFull carries the bytes after the terminator, or input[N-idx..] with idx read before the reset, and is produced "
+        "exactly when idx+len > N; every MIR assertion (add/sub overflow) and every slicing / split / copy site on every path is discharged by Fourier-Motzkin from the "
+        "guards, the invariant idx <= N and std contracts; new() establishes idx = 0.")
     run_.trusted += ["core slice::split_at / Iterator::position / Index<RangeFrom> contracts", "arrays and slices are at most isize::MAX bytes"]
-
-
-def discharge(A, p, e):
-    if e["kind"] != "Overflow":
-        return False
-    a, b = e.get("a"), e.get("b")
-    op = e.get("op")
-    if op == "Add":
-        # a + b <= usize::MAX
-        return A.prove(p, lin.ge(C((1 << 64) - 1, "usize"), ("bin", "Add", a, b, "usize")))
-    if op == "Sub":
-        return A.prove(p, lin.ge(a, b))
-    return False
